@@ -170,9 +170,52 @@ class MiniEval(object):
         raise _Undecidable('truth of %r' % v)
 
     # -- expressions
+    _MRO = {'bool': ('bool', 'int', 'object'), 'datetime': ('datetime', 'date', 'object'), 'None': ('NoneType', 'object')}
+
     def ev(self, e, env, fn):
         if isinstance(e, ast.Constant):
             return Val('const', type(e.value).__name__, e.value)
+        # the class hierarchy of the twelve type classes: type(x).__mro__, len(), indexing, .__name__
+        if isinstance(e, ast.Attribute) and e.attr == '__mro__':
+            b = self.ev(e.value, env, fn)
+            if b.kind == 'type':
+                return Val('mro', b.pytype, self._MRO.get(b.pytype, (b.pytype, 'object')))
+            raise _Undecidable('__mro__ of %r' % b)
+        if isinstance(e, ast.Call) and norm(e.func) == 'len' and len(e.args) == 1:
+            b = self.ev(e.args[0], env, fn)
+            if b.kind == 'mro':
+                return Val('const', 'int', len(b.inner))
+            raise _Undecidable('len of %r' % b)
+        if isinstance(e, ast.UnaryOp) and isinstance(e.op, ast.USub) and isinstance(e.operand, ast.Constant) and \
+                isinstance(e.operand.value, int):
+            return Val('const', 'int', -e.operand.value)
+        if isinstance(e, ast.IfExp):
+            t = self.truth(self.ev(e.test, env, fn))
+            return self.ev(e.body if t else e.orelse, env, fn)
+        if isinstance(e, ast.Subscript):
+            b = self.ev(e.value, env, fn)
+            i = self.ev(e.slice, env, fn)
+            if b.kind == 'mro' and i.kind == 'const' and isinstance(i.inner, int):
+                try:
+                    return Val('type', b.inner[i.inner])
+                except IndexError:
+                    raise _PyTypeError()
+            raise _Undecidable('subscript %s' % norm(e))
+        if isinstance(e, ast.Attribute) and e.attr == '__name__' and not isinstance(e.value, ast.Call):
+            b = self.ev(e.value, env, fn)
+            if b.kind == 'type':
+                return Val('const', 'str', 'NoneType' if b.pytype == 'None' else b.pytype)
+        if isinstance(e, ast.Compare) and len(e.ops) == 1:
+            try:
+                l0, r0 = self.ev(e.left, env, fn), self.ev(e.comparators[0], env, fn)
+            except _Undecidable:
+                l0 = r0 = None
+            if l0 is not None and l0.kind == 'const' and r0.kind == 'const' and isinstance(l0.inner, int) and \
+                    isinstance(r0.inner, int) and not isinstance(l0.inner, bool) and not isinstance(r0.inner, bool):
+                f = {ast.Gt: lambda a, b: a > b, ast.GtE: lambda a, b: a >= b, ast.Lt: lambda a, b: a < b,
+                     ast.LtE: lambda a, b: a <= b, ast.Eq: lambda a, b: a == b, ast.NotEq: lambda a, b: a != b}.get(type(e.ops[0]))
+                if f is not None:
+                    return Val('const', 'bool', f(l0.inner, r0.inner))
         if isinstance(e, ast.Name):
             if e.id in env:
                 return env[e.id]
